@@ -38,6 +38,9 @@ type FieldInst struct {
 	TV     bool     `json:"tv,omitempty"`
 	Len    int      `json:"len"`
 	Toks   []Tok    `json:"tk,omitempty"`
+	// NilFreqs: an instance without tokens hands zapx a nil token-frequency map
+	// (as bleve does for fields it did not analyse) instead of an empty one
+	NilFreqs bool `json:"nilfreqs,omitempty"`
 }
 
 // SynPair is one (lhs term, synonyms) pair yielded by a synonym field.
